@@ -2,6 +2,7 @@ package formatter
 
 import (
 	"bytes"
+	"strings"
 
 	"github.com/ysugimoto/falco/v2/ast"
 )
@@ -264,15 +265,22 @@ func (f *Formatter) formatIfStatement(stmt *ast.IfStatement) string {
 	buf.WriteString(f.formatBlockStatement(stmt.Consequence))
 	// The trailing comment of the last block is printed by formatStatement() as the statement's trailing comment
 	isLastBlock := len(stmt.Another) == 0 && stmt.Alternative == nil
-	if v := f.formatComment(stmt.Consequence.Trailing, "", 0); v != "" && !isLastBlock {
+	// lineBroken turns on when a line comment after the closing brace has ended the line,
+	// the following else-if / else keyword then starts its own (indented) line
+	lineBroken := false
+	if v := f.formatComments(stmt.Consequence.Trailing, "", 0, false); v != "" && !isLastBlock {
 		// If comment is inline , concat to the same line
 		if isInlineComment(stmt.Consequence.Trailing) {
+			// (a line comment may follow the inline one)
+			v = f.formatComment(stmt.Consequence.Trailing, "", 0)
 			buf.WriteString(" " + v)
+			lineBroken = strings.HasSuffix(v, "\n")
 		} else {
 			// Otherwise, print to the new line
 			buf.WriteString("\n")
 			buf.WriteString(f.indent(stmt.Consequence.Nest-1) + v)
 			buf.WriteString("\n")
+			lineBroken = true
 		}
 	}
 
@@ -282,8 +290,10 @@ func (f *Formatter) formatIfStatement(stmt *ast.IfStatement) string {
 		isLastBlock := i == len(stmt.Another)-1 && stmt.Alternative == nil
 		// If leading comments exists or AlwaysNextLineElseIf configuration is enabled,
 		// The keyword should be printed on the next line.
-		if len(a.Leading) > 0 || f.conf.AlwaysNextLineElseIf {
-			buf.WriteString("\n")
+		if lineBroken || len(a.Leading) > 0 || f.conf.AlwaysNextLineElseIf {
+			if !lineBroken {
+				buf.WriteString("\n")
+			}
 			buf.WriteString(f.formatComment(a.Leading, "\n", a.Nest))
 			buf.WriteString(f.indent(a.Nest))
 		} else {
@@ -317,23 +327,30 @@ func (f *Formatter) formatIfStatement(stmt *ast.IfStatement) string {
 			buf.WriteString(v + " ")
 		}
 		buf.WriteString(f.formatBlockStatement(a.Consequence))
-		if v := f.formatComment(a.Consequence.Trailing, "", 0); v != "" && !isLastBlock {
+		lineBroken = false
+		if v := f.formatComments(a.Consequence.Trailing, "", 0, false); v != "" && !isLastBlock {
 			// If comment is inline , concat to the same line
 			if isInlineComment(a.Consequence.Trailing) {
+				// (a line comment may follow the inline one)
+				v = f.formatComment(a.Consequence.Trailing, "", 0)
 				buf.WriteString(" " + v)
+				lineBroken = strings.HasSuffix(v, "\n")
 			} else {
 				// Otherwise, print to the new line
 				buf.WriteString("\n")
 				buf.WriteString(f.indent(a.Consequence.Nest-1) + v)
 				buf.WriteString("\n")
+				lineBroken = true
 			}
 		}
 	}
 
 	// else
 	if stmt.Alternative != nil {
-		if len(stmt.Alternative.Leading) > 0 || f.conf.AlwaysNextLineElseIf {
-			buf.WriteString("\n")
+		if lineBroken || len(stmt.Alternative.Leading) > 0 || f.conf.AlwaysNextLineElseIf {
+			if !lineBroken {
+				buf.WriteString("\n")
+			}
 			buf.WriteString(f.formatComment(stmt.Alternative.Leading, "\n", stmt.Alternative.Nest))
 			buf.WriteString(f.indent(stmt.Alternative.Nest))
 		} else {
